@@ -236,14 +236,20 @@ class _Blk:
         lines.append(f"{ind}{cur}")
         return "\n".join(lines)
 
+    def operand(self, node, s):
+        """right-hand sides are `val` or another cell (the terms are generic in the number type: no literals)"""
+        e = self.env(s)
+        if src(node) not in e:
+            raise SiteError(f"unexpected operand {src(node)}")
+        return e[src(node)][0]
+
     def stmt(self, st, s, ind):
-        tr = Tr(self.env(s))
         if isinstance(st, ast.Assign) and len(st.targets) == 1:
             f = _stat_target(st.targets[0], self.base, self.idx)
-            return f"{{ {s} with {f} := {tr.tr(st.value)[0]} }}"
+            return f"{{ {s} with {f} := {self.operand(st.value, s)} }}"
         if isinstance(st, ast.AugAssign) and isinstance(st.op, ast.Add):
             f = _stat_target(st.target, self.base, self.idx)
-            return f"{{ {s} with {f} := {s}.{f} + {tr.tr(st.value)[0]} }}"
+            return f"{{ {s} with {f} := {s}.{f} + {self.operand(st.value, s)} }}"
         if isinstance(st, ast.If):
             t = self.cmp(st.test, s)
             a = self.block(st.body, s, ind + "    ")
@@ -324,10 +330,10 @@ def _():
         raise SiteError("first-sample assignments changed")
     vals = {}
     for s in first_stmts:
-        vals[_stat_target(s.targets[0], b2.base, b2.idx)] = Tr(b2.env("s")).tr(s.value)[0]
-    for v in vals.values():
-        if "s." in v:
-            raise SiteError("first sample reads an uninitialised cell")
+        vals[_stat_target(s.targets[0], b2.base, b2.idx)] = b2.operand(s.value, "s")
+    for f, v in vals.items():
+        if v != "val":
+            raise SiteError(f"first sample initialises {f} with {v}, not with the sample")
     if [src(s) for s in i.orelse if not isinstance(s, ast.For)] != ["self._process_sample_count[process_name] = 1"]:
         raise SiteError("first-sample counter changed")
     return (
